@@ -365,7 +365,7 @@ impl<const P: u16> kani::Arbitrary for Fp<P> {
     }
 }
 
-#[cfg(test)]
+#[cfg(all(test, not(feature = "sdp")))]
 mod tests {
     use super::*;
     use clarabel::algebra::FloatT;
